@@ -22,7 +22,7 @@ from checks.common.cases import explore_cases
 PROP = 'C14'
 LEVEL = 'exploration'
 SHARDS = {'quick': 4, 'thorough': 16}
-BUDGET_S = {'quick': 40, 'thorough': 400}
+BUDGET_S = {'quick': 150, 'thorough': 400}
 RULE = ('argument lists of 0-6 strings over a weighted alphabet (quotes, backslash runs before quotes and at the '
         'end, blanks/tabs/newlines, $ ` * ? [ ~ ! # ; & | < > ( ) { = -, empty strings, non-ASCII), split by dash, '
         'bash, shlex (sh style) and by the MS C runtime reference parser (cmd style); integer lists with '
